@@ -32,6 +32,9 @@ for d in sorted(glob.glob('/tmp/wt-C*/_seed/m*')):
     prop = re.search(r'wt-(C\d+)', d).group(1)
     sid = f'{prop}-{os.path.basename(d)}'
     dst = f'{VERIF}/seeded/{sid}'
+    rejected = json.load(open(f'{VERIF}/seeded/rejected.json')) if os.path.exists(f'{VERIF}/seeded/rejected.json') else {}
+    if sid in rejected:
+        continue
     if os.path.exists(dst) or not os.path.exists(f'{d}/patch.diff') or not os.path.exists(f'{d}/demo_test.go'):
         continue
     os.makedirs(dst)
